@@ -36,6 +36,7 @@ pub fn drive(ctx: &Ctx, out: &mut Out, mode: Mode) {
     leg_terms(ctx, out, mode);
     leg_jets(ctx, out, mode);
     leg_disconnect(ctx, out, mode);
+    leg_asymmetric(ctx, out, mode);
     if mode == Mode::Bounds {
         leg_nesting(ctx, out);
     }
@@ -112,7 +113,7 @@ pub fn check_program(b: &mut Builder, t: &Rc<Term>, p: Place, inputs: &[Rc<RV>],
     Ok(())
 }
 
-fn inputs_of(t: &RT) -> Vec<Rc<RV>> {
+pub fn inputs_of(t: &RT) -> Vec<Rc<RV>> {
     if t.cardinality() <= 64 {
         values_of(t, 64).0
     } else {
@@ -282,17 +283,14 @@ fn leg_jets(ctx: &Ctx, out: &mut Out, mode: Mode) {
     }
 }
 
-fn leg_disconnect(ctx: &Ctx, out: &mut Out, mode: Mode) {
-    let leg = "disconnect";
-    let mut u = Universe::new(ctx.tier.pick(1, 2), true);
-    let mut b = Builder::new();
+/// disconnect(s, r) : A -> B x D for s : 2^256 x A -> B x C of three shapes and every small r : C -> D
+pub fn disconnect_terms(tier: Tier) -> Vec<Rc<Term>> {
+    let mut u = Universe::new(tier.pick(1, 2), true);
     let h = RT::word(8);
     let nt = u.types.len();
+    let mut all = vec![];
     for a in 0..nt {
         for d in 0..nt {
-            if !ctx.mine() {
-                continue;
-            }
             let (ta, td) = (u.types[a].clone(), u.types[d].clone());
             let ha = RT::prod(&h, &ta);
             // left branches: s : 2^256 x A -> B x C
@@ -328,25 +326,36 @@ fn leg_disconnect(ctx: &Ctx, out: &mut Out, mode: Mode) {
                     }
                 };
                 for r in rights {
-                    let t = Term::new(Tm::Disconnect(s.clone(), r), &ta, &RT::prod(&tb, &td));
-                    let inputs = inputs_of(&ta);
-                    for p in [Place::Bare, Place::ReadOffset(1), Place::WriteOffset(7), Place::DirtyOutput] {
-                        let label = || format!("{} at {:?}", t.describe(), p);
-                        if !ctx.begin(leg, &label) {
-                            continue;
-                        }
-                        out.evaluations += 1;
-                        out.states += 1;
-                        out.nontrivial += 1;
-                        match guard(|| check_program(&mut b, &t, p, &inputs, mode, out)) {
-                            Ok(Ok(())) => out.sample(leg, || (label(), "disconnect passes the re-hashed CMR of its right branch; outputs agree".into())),
-                            Ok(Err((c, dd))) => out.violation(&c, leg, label(), dd),
-                            Err(pn) => out.violation(&panic_class(&pn), leg, label(), pn),
-                        }
-                        ctx.end();
-                    }
+                    all.push(Term::new(Tm::Disconnect(s.clone(), r), &ta, &RT::prod(&tb, &td)));
                 }
             }
+        }
+    }
+    all
+}
+
+fn leg_disconnect(ctx: &Ctx, out: &mut Out, mode: Mode) {
+    let leg = "disconnect";
+    let mut b = Builder::new();
+    for t in disconnect_terms(ctx.tier) {
+        if !ctx.mine() {
+            continue;
+        }
+        let inputs = inputs_of(&t.src);
+        for p in [Place::Bare, Place::ReadOffset(1), Place::WriteOffset(7), Place::DirtyOutput] {
+            let label = || format!("{} at {:?}", t.describe(), p);
+            if !ctx.begin(leg, &label) {
+                continue;
+            }
+            out.evaluations += 1;
+            out.states += 1;
+            out.nontrivial += 1;
+            match guard(|| check_program(&mut b, &t, p, &inputs, mode, out)) {
+                Ok(Ok(())) => out.sample(leg, || (label(), "disconnect passes the re-hashed CMR of its right branch; outputs agree".into())),
+                Ok(Err((c, dd))) => out.violation(&c, leg, label(), dd),
+                Err(pn) => out.violation(&panic_class(&pn), leg, label(), pn),
+            }
+            ctx.end();
         }
     }
 }
@@ -403,6 +412,94 @@ fn leg_nesting(ctx: &Ctx, out: &mut Out) {
                     ctx.end();
                 }
             }
+        }
+    }
+}
+
+/// Binary combinators over children with *crossed* resource profiles: one child needs many cells in
+/// one frame, the other few cells in many frames (a bound that takes both maxima from the same child,
+/// or an execution that sizes a frame from the wrong child, only shows on such pairs).
+pub fn asymmetric_terms() -> Vec<(String, Rc<Term>)> {
+    let mut all = vec![];
+    for ta in [RT::bit(), RT::word(1)] {
+        let iden = |t: &Rc<RT>| Term::new(Tm::Iden, t, t);
+        let dup = |s: &Rc<Term>| Term::new(Tm::Pair(s.clone(), s.clone()), &s.src, &RT::prod(&s.tgt, &s.tgt));
+        // wide(k): comp (A -> A^(2^k), pairs only) (take^k iden): one frame of 2^k |A| cells
+        let wide = |k: usize| {
+            let mut p = iden(&ta);
+            for _ in 0..k {
+                p = dup(&p);
+            }
+            let mut tys = vec![ta.clone()];
+            for i in 0..k {
+                let last = tys[i].clone();
+                tys.push(RT::prod(&last, &last));
+            }
+            let mut q = iden(&ta);
+            for i in 0..k {
+                q = Term::new(Tm::Take(q), &tys[i + 1], &ta);
+            }
+            Term::new(Tm::Comp(p, q), &ta, &ta)
+        };
+        // deep(k): k nested compositions of iden: k frames of |A| cells
+        let deep = |k: usize, left: bool| {
+            let mut t = iden(&ta);
+            for _ in 0..k {
+                t = if left { Term::new(Tm::Comp(t, iden(&ta)), &ta, &ta) } else { Term::new(Tm::Comp(iden(&ta), t), &ta, &ta) };
+            }
+            t
+        };
+        let gadgets: Vec<(String, Rc<Term>)> = vec![
+            ("iden".into(), iden(&ta)),
+            ("wide(2)".into(), wide(2)),
+            ("wide(3)".into(), wide(3)),
+            ("deep(2)".into(), deep(2, false)),
+            ("deep(5)".into(), deep(5, false)),
+            ("deepL(3)".into(), deep(3, true)),
+            ("comp iden wide(2)".into(), Term::new(Tm::Comp(iden(&ta), wide(2)), &ta, &ta)),
+        ];
+        let sel = RT::prod(&RT::bit(), &ta);
+        let one_a = RT::prod(&RT::unit(), &ta);
+        for (nx, x) in &gadgets {
+            for (ny, y) in &gadgets {
+                all.push((format!("comp {nx} {ny}"), Term::new(Tm::Comp(x.clone(), y.clone()), &ta, &ta)));
+                all.push((format!("pair {nx} {ny}"), Term::new(Tm::Pair(x.clone(), y.clone()), &ta, &RT::prod(&ta, &ta))));
+                all.push((
+                    format!("case (drop {nx}) (drop {ny})"),
+                    Term::new(Tm::Case(Term::new(Tm::Drop(x.clone()), &one_a, &ta), Term::new(Tm::Drop(y.clone()), &one_a, &ta)), &sel, &ta),
+                ));
+            }
+        }
+    }
+    all
+}
+
+fn leg_asymmetric(ctx: &Ctx, out: &mut Out, mode: Mode) {
+    let leg = "asymmetric";
+    let mut b = Builder::new();
+    let mut own = false;
+    for (k, (name, t)) in asymmetric_terms().into_iter().enumerate() {
+        if k % 3 == 0 {
+            own = ctx.mine();
+        }
+        if !own {
+            continue;
+        }
+        let inputs = inputs_of(&t.src);
+        for p in [Place::Bare, Place::ReadOffset(1), Place::DirtyOutput] {
+            let label = || format!("{name} : {} -> {} at {:?}", t.src, t.tgt, p);
+            if !ctx.begin(leg, &label) {
+                continue;
+            }
+            out.evaluations += 1;
+            out.states += 1;
+            out.nontrivial += 1;
+            match guard(|| check_program(&mut b, &t, p, &inputs, mode, out)) {
+                Ok(Ok(())) => out.sample(leg, || (label(), "every input: output agrees with the semantics, marks within the bounds".into())),
+                Ok(Err((c, dd))) => out.violation(&c, leg, label(), dd),
+                Err(pn) => out.violation(&panic_class(&pn), leg, label(), pn),
+            }
+            ctx.end();
         }
     }
 }
